@@ -208,6 +208,21 @@ def handle (op : String) (args : List Sexp) : R Sexp := do
     | .ok r => pure (.list [.atom "ok", encParams r.params,
         .list [.atom "key", .atom (algName r.key.alg), ofBytes r.key.raw]])
     | .error e => pure (.list [.atom "err", .atom (errName e)])
+  | "key-export", [b, fmt, kty] => do
+    let b ← match ← b.asAtom with
+      | "ring" => pure Backend.ring | "aws" => pure Backend.aws | s => throw s!"bad backend {s}"
+    let kty ← match ← kty.asAtom with
+      | "ed25519" => pure KeyType.ed25519 | "p256" => pure KeyType.p256 | "p384" => pure KeyType.p384
+      | "p521" => pure KeyType.p521 | "rsa" => pure KeyType.rsa | s => throw s!"bad kty {s}"
+    let out ← match ← fmt.asAtom with
+      | "generated" => pure (exportFormat b kty)
+      | "pkcs8v1" => pure (exportOfLoaded b ⟨.pkcs8v1, kty⟩)
+      | "pkcs8v2" => pure (exportOfLoaded b ⟨.pkcs8v2, kty⟩)
+      | "sec1" => pure (exportOfLoaded b ⟨.sec1, kty⟩)
+      | "pkcs1" => pure (exportOfLoaded b ⟨.pkcs1, kty⟩)
+      | s => throw s!"bad fmt {s}"
+    pure (.atom (match out with
+      | .pkcs8v1 => "pkcs8v1" | .pkcs8v2 => "pkcs8v2" | .sec1 => "sec1" | .pkcs1 => "pkcs1"))
   | "key-load", [b, entry, alg, fmt, kty] => do
     let b ← match ← b.asAtom with
       | "ring" => pure Backend.ring | "aws" => pure Backend.aws | s => throw s!"bad backend {s}"
